@@ -143,6 +143,12 @@ def h_fault(ex, dll, L, kind, fault, windows=(1, 1), nmax=None):
     if ok:
         ex.claim('followup.intact', sym_eq_seq(sb.rx[0]['data'], p2), info)
     ex.claim('followup.job_threads_alive', sa.alive() and sb.alive())
+    if dll != 'j1939-21':
+        # J1939-22: giving the session up includes its session number - the full pool (8 RTS/CTS or 4 BAM) can be started
+        nmore = 8 if kind == 'p2p' else 4
+        rets = [sa.ca.send_pgn(0, pf if kind == 'p2p' else 0xFE, ps if kind == 'p2p' else 0x40 + j, 6, [(j + t) % 256 for t in range(61 + j)]) for j in range(nmore)]
+        ex.claim('followup.session_number_released', all(r is True for r in rets), dict(info, accepted=rets.count(True), wanted=nmore))
+        w.run(until=w.now + T(3))
     ex.witness()
 
 
